@@ -2,7 +2,7 @@ import Confuse.Lemmas.Parser
 /-!
 # C06 — rejected input is reported with the right file and line
 
-`lex_line_count`: over any input without `$` (so without substitutions, whose bodies are the one
+`lex_line_count`: over EVERY input (since fix F39 also inside substitutions, whose bodies were the one
 unspecified zone) every scanner path — code, `#`/`//`/`/* */` comments, single- and double-quoted
 multi-line strings, continuations, error exits — increments the line counter exactly once per
 newline it consumes.  `pstep_line`: the token machine adds exactly the scanner's count to the
@@ -28,14 +28,15 @@ theorem countNl_dropWhile (p : Nat → Bool) (_hp : p c_nl = false → True) (b 
     · simp only [List.dropWhile_cons_of_pos hc, ih, countNl_cons, h c hc, if_false, Nat.zero_add]
     · simp [List.dropWhile_cons_of_neg hc]
 
-def dqModeOk : DqMode → Bool
-  | .envOpen => false
-  | .env _ => false
+/-- the one thing the step machine relies on between two steps: after `$` the `{` is next -/
+def dqModeOk (m : DqMode) (inp : Bytes) : Bool :=
+  match m with
+  | .envOpen => inp.head? == some c_lbr
   | _ => true
 
-theorem dqPlain_line (acc : Bytes) (nl c : Nat) (cs : Bytes) (hc : c ≠ c_dollar) :
+theorem dqPlain_line (acc : Bytes) (nl c : Nat) (cs : Bytes) :
     match dqPlain acc nl c cs with
-    | .inl s' => s'.nl + countNl cs = nl + countNl (c :: cs) ∧ dqModeOk s'.mode = true
+    | .inl s' => s'.nl + countNl cs = nl + countNl (c :: cs) ∧ dqModeOk s'.mode cs = true
     | .inr o => o.nl + countNl o.rest = nl + countNl (c :: cs) := by
   unfold dqPlain
   rw [countNl_cons]
@@ -45,17 +46,39 @@ theorem dqPlain_line (acc : Bytes) (nl c : Nat) (cs : Bytes) (hc : c ≠ c_dolla
     · subst h2; simp [dqModeOk]; omega
     · by_cases h3 : c = c_bs
       · subst h3; simp [dqModeOk]
-      · simp [h1, h2, h3, hc, dqModeOk]
+      · by_cases h4 : c = c_dollar
+        · subst h4
+          simp only [h1, h2, h3, if_false, if_true]
+          cases cs with
+          | nil => simp [dqModeOk]
+          | cons d ds =>
+            simp only []
+            by_cases h5 : (d = c_lbr && hasRbr ds) = true
+            · simp only [h5, if_true]
+              simp only [Bool.and_eq_true, decide_eq_true_eq] at h5
+              simp [dqModeOk, h5.1]
+            · simp [h5, dqModeOk]
+        · simp [h1, h2, h3, h4, dqModeOk]
 
-theorem dqStep_line (env : Env) (s : DqSt) (c : Nat) (cs : Bytes) (hm : dqModeOk s.mode = true) (hc : c ≠ c_dollar) :
+theorem dqStep_line (env : Env) (s : DqSt) (c : Nat) (cs : Bytes) (hm : dqModeOk s.mode (c :: cs) = true) :
     match dqStep env s c cs with
-    | .inl s' => s'.nl + countNl cs = s.nl + countNl (c :: cs) ∧ dqModeOk s'.mode = true
+    | .inl s' => s'.nl + countNl cs = s.nl + countNl (c :: cs) ∧ dqModeOk s'.mode cs = true
     | .inr o => o.nl + countNl o.rest = s.nl + countNl (c :: cs) := by
   obtain ⟨mode, acc, nl⟩ := s
   cases mode with
-  | plain => exact dqPlain_line acc nl c cs hc
-  | envOpen => simp [dqModeOk] at hm
-  | env i => simp [dqModeOk] at hm
+  | plain => exact dqPlain_line acc nl c cs
+  | envOpen =>
+    have hc : c = c_lbr := by simpa [dqModeOk] using hm
+    subst hc
+    simp [dqStep, dqModeOk, countNl_cons]
+  | env i =>
+    simp only [dqStep]
+    rw [countNl_cons]
+    by_cases h1 : c = c_rbr
+    · subst h1; simp [dqModeOk]
+    · by_cases h2 : c = c_nl
+      · subst h2; simp [dqModeOk]; omega
+      · simp [h1, h2, dqModeOk]
   | esc =>
     simp only [dqStep]
     rw [countNl_cons]
@@ -73,14 +96,14 @@ theorem dqStep_line (env : Env) (s : DqSt) (c : Nat) (cs : Bytes) (hm : dqModeOk
     · have : c ≠ c_nl := by intro e; subst e; simp [isHex, isDec] at h
       simp [h, dqModeOk, countNl_cons, this]
     · simp only [h, if_false]
-      exact dqPlain_line _ nl c cs hc
+      exact dqPlain_line _ nl c cs
   | hex1 v =>
     simp only [dqStep]
     by_cases h : isHex c = true
     · have : c ≠ c_nl := by intro e; subst e; simp [isHex, isDec] at h
       simp [h, dqModeOk, countNl_cons, this]
     · simp only [h, if_false]
-      exact dqPlain_line _ nl c cs hc
+      exact dqPlain_line _ nl c cs
   | digits n ao v =>
     simp only [dqStep]
     by_cases h : isDec c = true
@@ -88,27 +111,29 @@ theorem dqStep_line (env : Env) (s : DqSt) (c : Nat) (cs : Bytes) (hm : dqModeOk
       simp [h, dqModeOk, countNl_cons, this]
     · simp only [h, if_false]
       cases finDigits n ao v with
-      | ok b => exact dqPlain_line _ nl c cs hc
+      | ok b => exact dqPlain_line _ nl c cs
       | error e => simp
 
-theorem dqRun_line (env : Env) (inp : Bytes) : ∀ (s : DqSt), dqModeOk s.mode = true → (∀ c ∈ inp, c ≠ c_dollar) →
+/-- **C06 (every newline of a double-quoted string is counted once)**: plain newlines, continuations, and
+(since fix F39) the newlines inside a `${…}` substitution - for EVERY input -/
+theorem dqRun_line (env : Env) (inp : Bytes) : ∀ (s : DqSt), dqModeOk s.mode inp = true →
     (dqRun env s inp).nl + countNl (dqRun env s inp).rest = s.nl + countNl inp := by
   induction inp with
   | nil =>
-    intro s _ _
+    intro s _
     simp only [dqRun, dqEof]
     split
     · split <;> simp
     · simp
   | cons c cs ih =>
-    intro s hm hd
-    have hstep := dqStep_line env s c cs hm (hd c (by simp))
+    intro s hm
+    have hstep := dqStep_line env s c cs hm
     simp only [dqRun]
     cases hs : dqStep env s c cs with
     | inl s' =>
       rw [hs] at hstep
       simp only
-      rw [ih s' hstep.2 (fun x hx => hd x (by simp [hx]))]
+      rw [ih s' hstep.2]
       exact hstep.1
     | inr o =>
       rw [hs] at hstep
@@ -191,23 +216,44 @@ theorem lexWord_line (nl : Nat) (inp : Bytes) :
   simp only [lexWord]
   rw [countNl_dropWhile isWordByte (fun _ => trivial) inp (by intro c hc; intro e; subst e; simp [isWordByte] at hc)]
 
-/-- **C06 (every newline counted once).** -/
-theorem lex_line_count (env : Env) (inp : Bytes) : ∀ (nl : Nat), (∀ c ∈ inp, c ≠ c_dollar) →
+theorem nlCount_eq_countNl (b : Bytes) : nlCount b = countNl b := by
+  induction b with
+  | nil => rfl
+  | cons c cs ih =>
+    rw [countNl_cons, ← ih]
+    by_cases h : c = c_nl <;> simp [nlCount, h]; omega
+
+/-- the body of `${…}` and what follows the closing brace hold all the newlines of the text after `${` -/
+theorem countNl_envSplit (ds : Bytes) (h : hasRbr ds = true) :
+    countNl (ds.takeWhile (· != c_rbr)) + countNl ((ds.dropWhile (· != c_rbr)).drop 1) = countNl ds := by
+  induction ds with
+  | nil => simp [hasRbr] at h
+  | cons d ds ih =>
+    by_cases hd : d = c_rbr
+    · subst hd; simp [countNl_cons]
+    · have hh : hasRbr ds = true := by simpa [hasRbr, hd] using h
+      have hb : (d != c_rbr) = true := by simp [hd]
+      have e1 : (d :: ds).takeWhile (· != c_rbr) = d :: ds.takeWhile (· != c_rbr) := by simp only [List.takeWhile, hb]
+      have e2 : (d :: ds).dropWhile (· != c_rbr) = ds.dropWhile (· != c_rbr) := by simp only [List.dropWhile, hb]
+      rw [e1, e2, countNl_cons, countNl_cons, ← ih hh]
+      omega
+
+/-- **C06 (every newline counted once).** For EVERY input: newlines in code, comments, multi-line strings,
+continuations and - since fix F39 - inside `${…}` substitutions are each counted exactly once. -/
+theorem lex_line_count (env : Env) (inp : Bytes) : ∀ (nl : Nat),
     (lexInitial env nl inp).nl + countNl (lexInitial env nl inp).rest = nl + countNl inp := by
   induction inp with
-  | nil => intro nl _; simp [lexInitial]
+  | nil => intro nl; simp [lexInitial]
   | cons c cs ih =>
-    intro nl hd
-    have hcs : ∀ x ∈ cs, x ≠ c_dollar := fun x hx => hd x (by simp [hx])
-    have hc : c ≠ c_dollar := hd c (by simp)
+    intro nl
     rw [countNl_cons]
     simp only [lexInitial]
     by_cases h1 : (c = c_sp || c = c_tab) = true
     · have : c ≠ c_nl := by intro e; subst e; simp at h1
-      simp [h1, ih nl hcs, this]
+      simp [h1, ih nl, this]
     · simp only [h1, if_false, Bool.false_eq_true]
       by_cases h2 : c = c_nl
-      · subst h2; simp [ih _ hcs]; omega
+      · subst h2; simp [ih _]; omega
       · simp only [h2, if_false, Nat.zero_add]
         by_cases h3 : c = c_hash
         · subst h3; simp [lineComment_line, countNl_cons]
@@ -241,21 +287,39 @@ theorem lex_line_count (env : Env) (inp : Bytes) : ∀ (nl : Nat), (∀ c ∈ in
                 simp only
                 by_cases hd2 : d = c_eq
                 · subst hd2; simp [countNl_cons]
-                · simp [hd2, ih nl hcs]
+                · simp [hd2, ih nl]
             · simp only [h13, if_false]
               by_cases h14 : c = c_dq
               · subst h14
                 simp only [if_true]
-                exact dqRun_line env cs ⟨.plain, [], nl⟩ rfl hcs
+                exact dqRun_line env cs ⟨.plain, [], nl⟩ rfl
               · simp only [h14, if_false]
                 by_cases h15 : c = c_sq
                 · subst h15; simp only [if_true]; exact sqRun_line cs .plain [] nl
-                · simp only [h15, hc, if_false]
-                  by_cases h16 : isWordByte c = true
-                  · have := lexWord_line nl (c :: cs)
-                    simp only [countNl_cons, h2, if_false, Nat.zero_add] at this
-                    simp [h16, this]
-                  · simp [h16, ih nl hcs]
+                · simp only [h15, if_false]
+                  have hw := lexWord_line nl (c :: cs)
+                  simp only [countNl_cons, h2, if_false, Nat.zero_add] at hw
+                  by_cases hc : c = c_dollar
+                  · subst hc
+                    simp only [if_true]
+                    cases cs with
+                    | nil => simpa using hw
+                    | cons d ds =>
+                      simp only []
+                      by_cases h17 : (d = c_lbr && hasRbr ds) = true
+                      · simp only [h17, if_true]
+                        simp only [Bool.and_eq_true, decide_eq_true_eq] at h17
+                        have hd : d ≠ c_nl := by rw [h17.1]; decide
+                        rw [countNl_cons, nlCount_eq_countNl]
+                        simp only [hd, if_false, Nat.zero_add]
+                        have := countNl_envSplit ds h17.2
+                        omega
+                      · simp only [h17]
+                        exact hw
+                  · simp only [hc, if_false]
+                    by_cases h16 : isWordByte c = true
+                    · simp [h16, hw]
+                    · simp [h16, ih nl]
 
 /-! ## the token machine hands the line on -/
 
